@@ -133,6 +133,9 @@ class Ctx:
         self.saved_states = {}
         self.culprits = []
         self.dropped_ids = {}
+        self.placeholders = {}
+        self.owned_pool = None
+        self.reuse_wanted = {s.get("reuse_id_of") for s in program.get("steps", []) if s.get("reuse_id_of")}
         self.import_epoch = []
         self.results_by_epoch = {}
         self.held = []  # results the caller still holds: (label, array, digest) -- caller-owned once returned
@@ -737,6 +740,15 @@ class Ctx:
         self.flat_checked.discard(slot)
         self._pending_res = self._held_res = None
         gc.collect()
+        if slot in self.reuse_wanted and slot in self.dropped_ids:
+            # the allocator seam (sim/addr.py): nothing long-lived may take the dead operator's address before the make
+            # step that is to reuse it
+            from . import addr
+            ph, others = addr.occupy(self.dropped_ids[slot], 20000)
+            del others
+            if ph is not None:
+                self.placeholders[slot] = [ph]
+            del ph
         self.stats["operators_dropped"] += 1
         self.events.append(("drop", step["id"], slot))
         self.sched_sig.append("drop")
@@ -788,20 +800,44 @@ class Ctx:
         self.check_invariants(sid, "make step %d (%s)" % (sid, step["recipe"]["k"]))
 
     def _do_make(self, step, record):
-        op = self.builder.op(step["recipe"])
         target = self.dropped_ids.get(step.get("reuse_id_of")) if record else None
-        if target is not None and rm.is_op(op) and id(op) != target:
-            # address reuse after free, made deterministic: keep building the same operator (the misses stay alive so that
-            # their addresses are not handed out again) until the allocator returns the address of the dropped operator
-            misses = [op]
-            for _ in range(96):
+        first = record and target is None and step.get("slot") in self.reuse_wanted
+        if first:
+            # the allocator seam: this operator is to die and its address to be reused -- make it live in a pool we own
+            from . import addr
+            self.builder.op(step["recipe"])  # warm the ledger: only the operator objects themselves are allocated below
+            if self.owned_pool is None:
+                self.owned_pool = addr.OwnedPool()
+            else:
+                self.owned_pool.arrange([], 0, 200)
+        op = self.builder.op(step["recipe"])
+        if first:
+            pins = []
+            while rm.is_op(op) and not self.owned_pool.contains(id(op)) and len(pins) < 6:
+                pins.append(op)  # it sits on a block another pool had free: pin that block and build again
                 op = self.builder.op(step["recipe"])
-                if id(op) == target:
-                    break
-                misses.append(op)
-            del misses
-        if target is not None and rm.is_op(op) and id(op) == target:
-            self.stats["address_reused_after_drop"] += 1
+            dbg = "size%d:pins%s" % (self.owned_pool.size, sorted({(id(p) >> 14) - self.owned_pool.pool for p in pins}))
+            del pins
+            self.owned_pool.refill()
+            if not self.owned_pool.contains(id(op)):
+                self.stats["address_pool_missed"] += 1
+                self.stats["address_pool_missed:" + dbg + ":res%d" % len(self.owned_pool.reserves)] += 1
+        if target is not None and rm.is_op(op) and id(op) != target and self.owned_pool is not None:
+            # address reuse after free, decided by the simulator (sim/addr.py); the first build above warmed the ledger
+            from . import addr
+            holder = self.placeholders.pop(step["reuse_id_of"], [])
+            if holder and self.owned_pool.contains(target):
+                warm = op
+                op2, hit, trace = addr.build_at(self.owned_pool, holder, target, lambda: self.builder.op(step["recipe"]))
+                if hit:
+                    op = op2
+                else:
+                    self.stats["address_hunt_failed:" + str(trace[-1])] += 1
+                del warm, op2
+            else:
+                self.stats["address_hunt_failed:" + ("no-placeholder" if not holder else "not-in-pool")] += 1
+        if target is not None and rm.is_op(op):
+            self.stats["address_reused_after_drop" if id(op) == target else "address_hunt_failed"] += 1
         if not rm.is_op(op):
             return op
         if record:
